@@ -30,6 +30,10 @@ type Case struct {
 	StoreOrder []int  `json:"storeOrder,omitempty"`
 	UnpubOrder []int  `json:"unpubOrder,omitempty"`
 	Note       string `json:"note,omitempty"`
+	// AdditionalOrder lists indexes into Ops of operations that reach the resolution not through a store but through
+	// the caller-supplied additional-operations option, in that order (they must then be absent from StoreOrder /
+	// UnpubOrder).
+	AdditionalOrder []int `json:"additionalOrder,omitempty"`
 	// Versions, when present, are the protocol versions in force (first genesis must be 0); every operation is
 	// applied under the version its protocol-version stamp (CaseOp.PV) selects. Empty = one version.
 	Versions []VersionSpec `json:"versions,omitempty"`
@@ -119,6 +123,15 @@ func (c *Case) Stores() (pub, unpub []*operation.AnchoredOperation) {
 		unpub = append(unpub, c.Anchored(i))
 	}
 	return pub, unpub
+}
+
+// Additional returns the operations handed over through the additional-operations resolution option.
+func (c *Case) Additional() []*operation.AnchoredOperation {
+	var out []*operation.AnchoredOperation
+	for _, i := range c.AdditionalOrder {
+		out = append(out, c.Anchored(i))
+	}
+	return out
 }
 
 // Descs returns the descriptors.
